@@ -422,6 +422,11 @@ def write_evidence(prop, tier, seed, selected, results, violations, known_hits, 
     ev = dict(
         property_id=prop, tier=tier, seed=seed, level="model_checking",
         coverage=dict(
+            # model_checking keys: the "model" is the unrolled symbolic program of every harness.
+            # states = SSA steps (symbolic program states encoded), transitions = propositional
+            # clauses of the transition relation handed to the SAT solver (+ SMT queries of E2)
+            states=max(1, steps),
+            transitions=max(1, clauses + sum(len(r.get("verdicts", {})) for r in e2_results)),
             evaluations=evaluations,
             distinct_nontrivial=nontrivial,
             rule="one case = one Kani proof harness over the compiled real code (/repo working tree, guard on), decided by "
